@@ -1214,3 +1214,420 @@ theorem block_frames_parse (args : Args) (pm : List (Int × Int)) (ports : List 
 end Receiver
 
 end TLX.Props.C02File
+
+/-! ### non-vacuity: a concrete capture file, key-log file and option vector
+
+A tiny QUIC v1 connection: hello exchange (client Initial; server Initial + Handshake coalesced; client Handshake) and two
+1-RTT datagrams, interleaved with an ARP request and two DNS queries. Toy primitives (`C15.sizedToy`: lawful hash
+functions with the real digest sizes; `Cipher.Toy`: an AEAD with `SealLaws`; a constant header-protection mask). Every
+field of `QuicCapture` is discharged by evaluation. -/
+namespace TLX.Props.C02File.Ex
+open TLX TLX.MainLoop TLX.Spec.Demux TLX.Dissect TLX.OutBytes TLX.Export
+open TLX.Props.C01File TLX.Spec.FrameBuild TLX.Spec.TlsCapture TLX.Spec.QuicCapture
+open TLX.Spec.QuicSender TLX.Spec.QuicConnection TLX.Spec.QuicPackets TLX.QuicPipeline TLX.Props.C02Capstone
+open TLX.Quic.Session TLX.Cipher TLX.Props.C02Session TLX.Spec.QuicFrames
+open TLX.Spec.TlsHello TLX.Spec.TlsHandshakeFraming TLX.Props.C02Capstone.ExConf
+open TLX.Spec.KeySchedules
+open TLX.Props.C01File.Ex (timeAt arp notMinusOne cMac sMac)
+
+def H : Crypto.Prims := Props.C15.sizedToy
+def Pc : Cipher.Prims := Cipher.Toy.prims
+def L : SealLaws Pc := Cipher.Toy.laws
+def m5 : Bytes := [0xa5, 0x5a, 0xff, 0x00, 0x11]
+def maskFn : Quic.Dissect.MaskFn := fun _ _ _ => some m5
+def sel : SuiteSel := ⟨.sha256, .aesgcm, 16⟩
+
+def M : Bytes := encodeClientHello chx
+def F : Bytes := encodeEncryptedExtensions [⟨16, alpnBody [[0x68, 0x33]]⟩] ++
+    (handshake 11 [0, 0, 0, 5, 1, 2, 3, 4, 5] ++ (handshake 15 [8, 4, 0, 2, 9, 9] ++ handshake 20 [7, 7, 7, 7]))
+
+def hs : ConfHs :=
+  { ch := chx, sh := shx, shExts := [⟨43, [3, 4]⟩], ee := [⟨16, alpnBody [[0x68, 0x33]]⟩],
+    cert := [0, 0, 0, 5, 1, 2, 3, 4, 5], cv := [8, 4, 0, 2, 9, 9], sfin := [7, 7, 7, 7], cfin := [6, 6, 6, 6],
+    chFrs := [M], chDl := [(0, M, M.length)], chDups := [], sFrs := [F] }
+
+theorem hs_ok : hs.Ok := by
+  refine ⟨by decide, by decide, rfl, by decide, by decide, by decide, by decide, by decide, ⟨by decide, by decide⟩, ?_,
+    by decide, ⟨by decide, by decide⟩⟩
+  decide
+
+/-- the four secrets of the connection -/
+def chS : Bytes := List.replicate 32 0x11
+def shS : Bytes := List.replicate 32 0x22
+def caS : Bytes := List.replicate 32 0x33
+def saS : Bytes := List.replicate 32 0x44
+
+def w0 : VW := ⟨0, by omega⟩
+def w2 : VW := ⟨1, by omega⟩
+
+/-- capture microsecond of the packet at position `n` (as the tool evaluates it: a double) -/
+def usAt (n : Nat) : Nat := Container.usOfFloat (timeAt n).toFloat
+
+def cidS0 : Bytes := [0x51, 0x51, 0x51, 0x51, 0x51, 0x51, 0x51, 0x51]
+def cidS : Bytes := [0x52, 0x01]
+def cidC : Bytes := [0xc1]
+
+/-- the client's first Initial: the whole ClientHello, padded -/
+def qCI : PkH :=
+  ⟨{ level := .initial, srv := false, ts := usAt 1, pn := 0, pnLen := 1, frames := [.crypto ⟨0, w0⟩ w2 M, .padding 30],
+     dcid := cidS0, scid := cidC, typeBits := 0, lenW := w2 }, m5⟩
+/-- the server's Initial (ServerHello) and Handshake packet (the rest of its flight), coalesced -/
+def qSI : PkH :=
+  ⟨{ level := .initial, srv := true, ts := usAt 2, pn := 0, pnLen := 2, frames := [.crypto ⟨0, w0⟩ w2 (encodeServerHello shx)],
+     dcid := cidC, scid := cidS, typeBits := 0, lenW := w2, lowBits := 3 }, m5⟩
+def qSH : PkH :=
+  ⟨{ level := .handshake, srv := true, ts := usAt 2, pn := 0, pnLen := 1, frames := [.crypto ⟨0, w0⟩ w2 F],
+     dcid := cidC, scid := cidS, typeBits := 2, lenW := w2 }, m5⟩
+/-- the client's Finished -/
+def qCH : PkH :=
+  ⟨{ level := .handshake, srv := false, ts := usAt 4, pn := 0, pnLen := 1,
+     frames := [.crypto ⟨0, w0⟩ w0 (handshake 20 [6, 6, 6, 6]), .ping],
+     dcid := cidS, scid := cidC, typeBits := 2, lenW := w2 }, m5⟩
+
+def dg0 : DgH := ⟨false, usAt 1, [qCI]⟩
+def dgS : DgH := ⟨true, usAt 2, [qSI, qSH]⟩
+def dgC : DgH := ⟨false, usAt 4, [qCH]⟩
+
+/-- 1-RTT: a request and a reply -/
+def o0 : Dg1 :=
+  ⟨{ level := .oneRtt, srv := false, ts := usAt 5, pn := 0, pnLen := 1,
+     frames := [.stream true ⟨0, w0⟩ none (some w0) [0x47, 0x45, 0x54], .padding 3], dcid := cidS, gen := 0 }, m5⟩
+def o1 : Dg1 :=
+  ⟨{ level := .oneRtt, srv := true, ts := usAt 7, pn := 0, pnLen := 2,
+     frames := [.ping, .stream false ⟨3, w0⟩ none none [0x4f, 0x4b]], dcid := cidC, gen := 0, lowBits := 5 }, m5⟩
+
+def wH : DgH → Bytes := dgWire H Pc L (dgDcid dg0) sel shS chS
+def w1 : Dg1 → Bytes := wireOf H Pc L sel .v1 (rfcGen (hashOf H sel.hash) sel.keyLen saS caS 0)
+
+def fl : Flow := ⟨false, [10, 0, 0, 1], 50000, [10, 0, 0, 2], 443⟩
+
+def udpOf (d : Bool) (payload : Bytes) : Udp := ⟨if d then 443 else 50000, if d then 50000 else 443, 0, payload⟩
+/-- Ethernet II / IPv4 (DF, TTL 64, no options) / UDP, no trailer -/
+def dgFrame (d : Bool) (payload : Bytes) : Spec.FrameBuild.Frame :=
+  ⟨if d then cMac else sMac, if d then sMac else cMac,
+   .v4 ⟨0, 1, true, false, 64, 0, if d then [10, 0, 0, 2] else [10, 0, 0, 1], if d then [10, 0, 0, 1] else [10, 0, 0, 2], []⟩,
+   .udp (udpOf d payload), []⟩
+
+theorem isDg_mk (d : Bool) (payload : Bytes) (hp : payload.length < 60000) :
+    IsDg fl d (dgFrame d payload) (udpOf d payload) := by
+  cases d <;>
+    simp [IsDg, Spec.FrameBuild.Frame.WF, Upper.WF, Udp.WF, V4.WF, dgFrame, udpOf, Upper.encode, Udp.encode, be2, fl, cMac, sMac] <;> omega
+
+def hsEv (n : Nat) (d : DgH) : QEv := .hs (timeAt n) (dgFrame d.srv (wH d)) (udpOf d.srv (wH d)) d
+def oneEv (n : Nat) (d : Dg1) : QEv := .one (timeAt n) (dgFrame d.x.srv (w1 d)) (udpOf d.x.srv (w1 d)) d
+
+/-- a foreign UDP datagram (a DNS query of the client: first payload byte without the QUIC fixed bit) -/
+def flDns : Flow := ⟨false, [10, 0, 0, 1], 50001, [10, 0, 0, 53], 53⟩
+def dnsU : Udp := ⟨50001, 53, 0, [0x12, 0x34, 1, 0, 0, 1, 0, 0, 0, 0, 0, 0, 1, 0x61, 0, 0, 1, 0, 1]⟩
+def dnsFrame : Spec.FrameBuild.Frame :=
+  ⟨sMac, cMac, .v4 ⟨0, 7, false, false, 64, 0, [10, 0, 0, 1], [10, 0, 0, 53], []⟩, .udp dnsU, []⟩
+def dns (n : Nat) : CapEv := ⟨timeAt n, dnsFrame.encode, viewOf dnsFrame⟩
+
+def evsH : List QEv := [.foreign arp, hsEv 1 dg0, hsEv 2 dgS, .foreign (dns 3), hsEv 4 dgC]
+def evsO : List QEv := [oneEv 5 o0, .foreign (dns 6), oneEv 7 o1]
+
+/-- the key-log FILE: the connection's four lines (and a line of another connection) -/
+def line (label : Keylog.Str) (cr secret : Bytes) : Keylog.Str :=
+  label ++ [32] ++ Keylog.hexOf (Pipeline.natsOfBytes cr) ++ [32] ++ Keylog.hexOf (Pipeline.natsOfBytes secret) ++ [10]
+def keyText : Keylog.Str :=
+  line Keylog.s_SHTS chx.random shS ++ line Keylog.s_CTS0 (List.replicate 32 9) [1, 2] ++
+  line Keylog.s_CHTS chx.random chS ++ line Keylog.s_STS0 chx.random saS ++ line Keylog.s_CTS0 chx.random caS
+
+def keys : List Keylog.Key := (fileKeysOf (some keyText)).getD []
+
+theorem keylog0 : KeylogHas keys chx.random chS shS caS saS none := by
+  refine ⟨⟨(Keylog.quicSessionKeys keys (Pipeline.natsOfBytes chx.random)).getD [],
+    (quicSecrets ((Keylog.quicSessionKeys keys (Pipeline.natsOfBytes chx.random)).getD [])).getD [], ?_⟩⟩
+  decide +kernel
+
+
+open TLX.Props.C01File.Ex (args0 ports0)
+
+def items0 : List (List Keylog.Key × MainLoop.Pkt × DgH) :=
+  [(keys, dgPkt fl true (wH dgS) 2, dgS), (keys, dgPkt fl false (wH dgC) 4, dgC)]
+def p0 : MainLoop.Pkt := dgPkt fl false (wH dg0) 1
+
+theorem first0 : hsItems fl keys 0 evsH = (keys, p0, dg0) :: items0 := rfl
+
+theorem hsIns0 : allIns (dg0 :: items0.map (·.2.2)) = hs.ins := by decide +kernel
+
+theorem keyed0 : (trk0.runDgs (dg0 :: items0.map (·.2.2))).keyed = true := by decide +kernel
+
+theorem phaseH0 : ∀ ev ∈ evsH, noOne ev = true := by decide
+theorem phaseO0 : ∀ ev ∈ evsO, noHs ev = true := by decide
+
+
+theorem wfCI : WellFormedSeq qCI.x.frames := by
+  simp [qCI, WellFormedSeq, QFrame.wf, QFrame.greedy, optOk, optFits]; decide +kernel
+theorem wfSI : WellFormedSeq qSI.x.frames := by
+  simp [qSI, WellFormedSeq, QFrame.wf, QFrame.greedy, optOk, optFits]; decide +kernel
+theorem wfSH : WellFormedSeq qSH.x.frames := by
+  simp [qSH, WellFormedSeq, QFrame.wf, QFrame.greedy, optOk, optFits]; decide +kernel
+theorem wfCH : WellFormedSeq qCH.x.frames := by
+  simp [qCH, WellFormedSeq, QFrame.wf, QFrame.greedy, optOk, optFits]; decide +kernel
+
+instance (a b c : Nat) : Decidable (PnLenOk a b c) := by unfold PnLenOk; infer_instance
+
+def dcid0 : Bytes := dgDcid dg0
+def tA : Trk := trk0.step qCI.x
+def tB : Trk := tA.step qSI.x
+def tC : Trk := tB.step qSH.x
+
+theorem pkCI : HsPkOk maskFn H Pc L dcid0 sel shS chS trk0 qCI :=
+  ⟨⟨by decide, by decide, by decide, by decide, by decide, by decide, by decide +kernel, by decide +kernel⟩,
+    by decide +kernel, by decide +kernel, by decide +kernel, wfCI, by decide +kernel, rfl, by decide⟩
+theorem pkSI : HsPkOk maskFn H Pc L dcid0 sel shS chS tA qSI :=
+  ⟨⟨by decide, by decide, by decide, by decide, by decide, by decide, by decide +kernel, by decide +kernel⟩,
+    by decide +kernel, by decide +kernel, by decide +kernel, wfSI, by decide +kernel, rfl, by decide⟩
+theorem pkSH : HsPkOk maskFn H Pc L dcid0 sel shS chS tB qSH :=
+  ⟨⟨by decide, by decide, by decide, by decide, by decide, by decide, by decide +kernel, by decide +kernel⟩,
+    by decide +kernel, by decide +kernel, by decide +kernel, wfSH, by decide +kernel, rfl, by decide⟩
+theorem pkCH : HsPkOk maskFn H Pc L dcid0 sel shS chS tC qCH :=
+  ⟨⟨by decide, by decide, by decide, by decide, by decide, by decide, by decide +kernel, by decide +kernel⟩,
+    by decide +kernel, by decide +kernel, by decide +kernel, wfCH, by decide +kernel, rfl, by decide⟩
+
+theorem hsDgs0 : HsDgs maskFn H Pc L (dgDcid dg0) sel shS chS trk0 (dg0 :: items0.map (·.2.2)) := by
+  refine ⟨⟨?_, by decide +kernel, pkCI, trivial⟩, ⟨?_, by decide +kernel, pkSI, pkSH, trivial⟩,
+    ⟨?_, by decide +kernel, pkCH, trivial⟩, trivial⟩
+  · intro q hq; simp only [dg0, List.mem_singleton] at hq; subst hq; exact ⟨rfl, rfl⟩
+  · intro q hq; simp only [dgS, List.mem_cons, List.not_mem_nil, or_false] at hq; rcases hq with rfl | rfl <;> exact ⟨rfl, rfl⟩
+  · intro q hq; simp only [dgC, List.mem_singleton] at hq; subst hq; exact ⟨rfl, rfl⟩
+
+
+def o : Opts := optsOf args0 ports0 []
+
+theorem lenH (d : DgH) (h : d ∈ [dg0, dgS, dgC]) : (wH d).length < 60000 := by
+  simp only [List.mem_cons, List.not_mem_nil, or_false] at h
+  rcases h with rfl | rfl | rfl <;> decide +kernel
+
+theorem len1 (d : Dg1) (h : d ∈ [o0, o1]) : (w1 d).length < 60000 := by
+  simp only [List.mem_cons, List.not_mem_nil, or_false] at h
+  rcases h with rfl | rfl <;> decide +kernel
+
+theorem hsEv_ok (n : Nat) (d : DgH) (h : d ∈ [dg0, dgS, dgC]) (hts : d.ts = usAt n) (hh : HdrOk d) :
+    IsDg fl d.srv (dgFrame d.srv (wH d)) (udpOf d.srv (wH d)) ∧ (udpOf d.srv (wH d)).payload = wH d ∧
+      d.ts = Container.usOfFloat (timeAt n).toFloat ∧ HdrOk d :=
+  ⟨isDg_mk _ _ (lenH d h), rfl, hts, hh⟩
+
+theorem arp_notQuic : dissect arp.buf = .ok arp.d ∧ ∀ tag, NotQuic o (pktOf tag arp.d) := by
+  refine ⟨by decide +kernel, ?_⟩
+  intro tag h
+  simp [arp, pktOf, Ingest.otherPkt] at h
+
+theorem dnsDg : IsDg flDns false dnsFrame dnsU := by
+  simp [IsDg, Spec.FrameBuild.Frame.WF, Upper.WF, Udp.WF, V4.WF, dnsFrame, dnsU, Upper.encode, Udp.encode, be2, flDns, cMac, sMac]
+
+theorem dns_notQuic (n : Nat) : dissect (dns n).buf = .ok (dns n).d ∧ ∀ tag, NotQuic o (pktOf tag (dns n).d) := by
+  refine ⟨dissect_dg flDns false dnsFrame dnsU dnsDg, ?_⟩
+  intro tag _
+  right
+  refine ⟨rfl, ?_⟩
+  intro b0 r hb
+  have hp : (pktOf tag (dns n).d).payload = dnsU.payload := by
+    show (pktOf tag (viewOf dnsFrame)).payload = _
+    rw [pktOf_dg flDns false dnsFrame dnsU dnsDg]
+  rw [hp] at hb
+  simp only [dnsU, List.cons.injEq] at hb
+  rw [← hb.1]; decide
+
+theorem described0 : QDescribed fl wH w1 o (evsH ++ evsO) := by
+  intro ev hev
+  simp only [evsH, evsO, List.cons_append, List.nil_append, List.mem_cons, List.not_mem_nil, or_false] at hev
+  rcases hev with rfl | rfl | rfl | rfl | rfl | rfl | rfl | rfl
+  · exact arp_notQuic
+  · exact hsEv_ok 1 dg0 (by simp) rfl ⟨qCI, [], rfl, pkCI.shape, by decide, by decide⟩
+  · exact hsEv_ok 2 dgS (by simp) rfl ⟨qSI, [qSH], rfl, pkSI.shape, by decide, by decide⟩
+  · exact dns_notQuic 3
+  · exact hsEv_ok 4 dgC (by simp) rfl ⟨qCH, [], rfl, pkCH.shape, by decide, by decide⟩
+  · exact ⟨isDg_mk _ _ (len1 o0 (by simp)), rfl, rfl, by decide, by decide⟩
+  · exact dns_notQuic 6
+  · exact ⟨isDg_mk _ _ (len1 o1 (by simp)), rfl, rfl, by decide, by decide⟩
+
+theorem times0 : ∀ e ∈ (evsH ++ evsO).map QEv.cap, Ingest.isMinusOne e.t = false := by
+  intro e he
+  simp only [evsH, evsO, List.cons_append, List.nil_append, List.map_cons, List.map_nil, List.mem_cons, List.not_mem_nil,
+    or_false] at he
+  rcases he with rfl | rfl | rfl | rfl | rfl | rfl | rfl | rfl <;> exact notMinusOne _
+
+
+def tF : Trk := trk0.runDgs (dg0 :: items0.map (·.2.2))
+
+theorem ones0 : (oneItems fl evsH.length evsO).map (·.2) = [o0, o1] := rfl
+
+theorem wfO0 : WellFormedSeq o0.x.frames := by
+  simp [o0, WellFormedSeq, QFrame.wf, QFrame.greedy, optOk, optFits]; decide +kernel
+theorem wfO1 : WellFormedSeq o1.x.frames := by
+  simp [o1, WellFormedSeq, QFrame.wf, QFrame.greedy, optOk, optFits]; decide +kernel
+
+theorem tF_eq : chachaOf tF.core = false ∧ tF.tc.app = 0 ∧ tF.ts.app = 0 ∧ tF.cc = [cidC] ∧ tF.sc = [cidS0, cidS] := by
+  decide +kernel
+
+theorem send1_0 : Send1 maskFn H Pc L sel .v1 (rfcGen (hashOf H sel.hash) sel.keyLen saS caS 0)
+    (quicHp (hashOf H sel.hash) caS sel.keyLen) (quicHp (hashOf H sel.hash) saS sel.keyLen)
+    (chachaOf tF.core) 0 0 tF.tc.app tF.ts.app tF.cc tF.sc ((oneItems fl evsH.length evsO).map (·.2)) := by
+  obtain ⟨e1, e2, e3, e4, e5⟩ := tF_eq
+  rw [ones0, e1, e2, e3, e4, e5]
+  refine ⟨rfl, by decide, by decide, by decide +kernel, wfO0, ⟨by decide, by decide +kernel, rfl, by decide⟩, by decide,
+    rfl, by decide, by decide, by decide +kernel, wfO1, ⟨by decide, by decide +kernel, rfl, by decide⟩, by decide, trivial⟩
+
+instance (c : List Bytes) (w d : Bytes) : Decidable (RouteOk c w d) := by unfold RouteOk; infer_instance
+
+theorem routes0 : Routes1 w1 tF.cc tF.sc ((oneItems fl evsH.length evsO).map (·.2)) := by
+  obtain ⟨_, _, _, e4, e5⟩ := tF_eq
+  rw [ones0, e4, e5]
+  refine ⟨?_, ?_, trivial⟩ <;> decide +kernel
+
+theorem distinct0 : (((oneItems fl evsH.length evsO).map (·.2)).map fun d => (d.x.ts, d.x.srv)).Pairwise (· ≠ ·) := by
+  rw [ones0]
+  simp [o0, o1]
+
+
+open TLX.Props.C01File.Ex (cv0 cevOf legacy_wf filterMap_map_some)
+
+/-- **every hypothesis of the file-level theorems holds** for this capture, key-log file and option vector -/
+theorem capture0 : QuicCapture maskFn H Pc L args0 (some keyText) [] ports0 fl hs chS shS caS saS none sel evsH evsO
+    keys p0 dg0 items0 where
+  lawful := Props.C15.sizedToy_lawful
+  sha256 := rfl
+  times := times0
+  noc := rfl
+  nometa := rfl
+  pmOk := rfl
+  portsOk := rfl
+  endpoints := by decide
+  clientPort := by decide +kernel
+  hsOk := hs_ok
+  suite := by decide
+  outLen := by decide
+  saLen := rfl
+  caLen := rfl
+  keylog := keylog0
+  first := first0
+  fromClient := rfl
+  described := described0
+  phaseH := phaseH0
+  phaseO := phaseO0
+  hsDgs := hsDgs0
+  hsIns := hsIns0
+  keyed := keyed0
+  send1 := send1_0
+  routes := routes0
+  distinct := distinct0
+
+/-! the capture FILE: nanosecond libpcap, little endian (`C01File.Ex.cv0`) -/
+def cevs0 : List Spec.Containers.Ev := ((evsH ++ evsO).map QEv.cap).map cevOf
+
+
+open TLX.Props.C01File.Ex (scale_cev)
+
+theorem dgFrame_length (d : Bool) (pl : Bytes) : (dgFrame d pl).encode.length = 42 + pl.length := by
+  cases d <;>
+    simp [dgFrame, udpOf, Spec.FrameBuild.Frame.encode, Spec.FrameBuild.Frame.etherType, Spec.FrameBuild.Frame.datagram,
+      V4.encode, V4.fixed, Upper.encode, Udp.encode, be2, cMac, sMac, Upper.proto] <;> omega
+
+theorem evs_bounds : ∀ e ∈ (evsH ++ evsO).map QEv.cap, ∃ k, k < 100 ∧ e.t = timeAt k ∧ e.buf.length < 70000 := by
+  intro e he
+  simp only [evsH, evsO, List.cons_append, List.nil_append, List.map_cons, List.map_nil, List.mem_cons, List.not_mem_nil,
+    or_false] at he
+  rcases he with rfl | rfl | rfl | rfl | rfl | rfl | rfl | rfl
+  · exact ⟨0, by decide, rfl, by decide⟩
+  · exact ⟨1, by decide, rfl, by simp only [hsEv, QEv.cap, dgFrame_length]; have := lenH dg0 (by simp); omega⟩
+  · exact ⟨2, by decide, rfl, by simp only [hsEv, QEv.cap, dgFrame_length]; have := lenH dgS (by simp); omega⟩
+  · exact ⟨3, by decide, rfl, by decide +kernel⟩
+  · exact ⟨4, by decide, rfl, by simp only [hsEv, QEv.cap, dgFrame_length]; have := lenH dgC (by simp); omega⟩
+  · exact ⟨5, by decide, rfl, by simp only [oneEv, QEv.cap, dgFrame_length]; have := len1 o0 (by simp); omega⟩
+  · exact ⟨6, by decide, rfl, by decide +kernel⟩
+  · exact ⟨7, by decide, rfl, by simp only [oneEv, QEv.cap, dgFrame_length]; have := len1 o1 (by simp); omega⟩
+
+theorem cwf0 : cv0.WF cevs0 := by
+  refine ⟨by decide, by decide, by decide, by decide, by decide, legacy_wf _ _ rfl ?_ 0⟩
+  intro ev hev
+  simp only [cevs0, List.mem_map] at hev
+  obtain ⟨e, ⟨c, hc, rfl⟩, rfl⟩ := hev
+  obtain ⟨k, hk, ht, hl⟩ := evs_bounds _ (List.mem_map.mpr ⟨c, hc, rfl⟩)
+  refine ⟨_, _, rfl, ?_, by omega⟩
+  rw [ht]
+  simp only [timeAt, Spec.Containers.LegacyVariant.unitsPerSecond, if_true]
+  have : ((1700000000 : Int).toNat * 10 ^ 9 + (1000 + k)) / 10 ^ 9 = 1700000000 := by
+    have : (1700000000 : Int).toNat = 1700000000 := rfl
+    rw [this]; omega
+  rw [this]; decide
+
+theorem citems0 : cevs0.filterMap (Spec.Containers.scale cv0) = ((evsH ++ evsO).map QEv.cap).map CapEv.item := by
+  unfold cevs0
+  apply filterMap_map_some
+  intro e he
+  obtain ⟨k, hk, ht, _⟩ := evs_bounds e he
+  exact scale_cev _ k hk ht
+
+/-- what the export must contain: the request from the client's endpoint to the server's (no `-m`: the original port is kept), the reply back -/
+theorem block0 : blockOf (maskFn := maskFn) (H := H) (Pc := Pc) args0 [] ports0 fl evsH evsO p0 =
+    [⟨usAt 5, cMac, sMac, ⟨[10, 0, 0, 1], 50000⟩, ⟨[10, 0, 0, 2], 443⟩, false, 0, 0, 0, [0x47, 0x45, 0x54], true⟩,
+     ⟨usAt 7, sMac, cMac, ⟨[10, 0, 0, 2], 443⟩, ⟨[10, 0, 0, 1], 50000⟩, false, 0, 0, 0, [0x4f, 0x4b], true⟩] := by
+  rfl
+
+
+def out0 : List Pipeline.OutPkt :=
+  [⟨usAt 5, cMac, sMac, ⟨[10, 0, 0, 1], 50000⟩, ⟨[10, 0, 0, 2], 443⟩, false, 0, 0, 0, [0x47, 0x45, 0x54], true⟩,
+   ⟨usAt 7, sMac, cMac, ⟨[10, 0, 0, 2], 443⟩, ⟨[10, 0, 0, 1], 50000⟩, false, 0, 0, 0, [0x4f, 0x4b], true⟩]
+
+/-- **Non-vacuity of `quic_capture_exact` (through `quic_capture_exact_encoded`).** EVERY hypothesis holds for a concrete
+    input: the capture FILE is the nanosecond-libpcap encoding of an ARP request, the client's Initial (whole ClientHello,
+    padded), the server's Initial + Handshake packet coalesced in one datagram, a DNS query, the client's Handshake packet
+    (Finished), a 1-RTT request `GET`, another DNS query, the 1-RTT reply `OK` — as Ethernet / IPv4 / UDP frames built by
+    `Spec.FrameBuild`; the key-log FILE has the connection's four lines in any order plus a line of another connection; no
+    options; toy hash functions with the real digest sizes, the toy AEAD, a constant header-protection mask. So the
+    conclusion holds: the run gets to the write loop, and the file it writes contains exactly `GET` / `OK`. -/
+theorem quic_file_instance :
+    (∃ e, exportFile maskFn H Pc args0 cv0.isLegacy (some keyText) (Spec.Containers.encode cv0 cevs0) = .abort (.write e)) ∨
+    ∃ f, exportFile maskFn H Pc args0 cv0.isLegacy (some keyText) (Spec.Containers.encode cv0 cevs0) = .file f ∧
+      ReadsBack f out0 := by
+  have h := quic_capture_exact_encoded capture0 cv0 cevs0 cwf0 citems0
+  rw [block0] at h
+  exact h
+
+theorem arp_notTls (tag : Nat) : NotTls (pktOf tag arp.d) := by
+  intro h
+  simp [arp, pktOf, Ingest.otherPkt] at h
+
+theorem dns_notTls (n tag : Nat) : NotTls (pktOf tag (dns n).d) := by
+  intro h
+  have hp : (pktOf tag (dns n).d).l4 = .udp := by
+    show (pktOf tag (viewOf dnsFrame)).l4 = _
+    rw [pktOf_dg flDns false dnsFrame dnsU dnsDg]
+  rw [hp] at h
+  cases h.1
+
+/-- **Non-vacuity of `quic_capture_exact_ranges`**: … and the file IS written — every hypothesis discharged EXCEPT the one
+    IEEE-754 fact (`hus`: the doubles the tool computes for the two packet times round to less than 2^64 µs), which no
+    Lean proof can evaluate (`#eval usAt 5` gives 1700000000000001). -/
+theorem quic_file_instance_written (hus : usAt 5 < 2 ^ 64 ∧ usAt 7 < 2 ^ 64) :
+    ∃ f, exportFile maskFn H Pc args0 cv0.isLegacy (some keyText) (Spec.Containers.encode cv0 cevs0) = .file f ∧
+      ReadsBack f out0 := by
+  have h := quic_capture_exact_ranges capture0 cv0.isLegacy (Spec.Containers.encode cv0 cevs0)
+    (by rw [Props.C12.reader_roundtrip cv0 cevs0 cwf0, citems0])
+    (by
+      intro e he tag
+      simp only [evsH, evsO, List.cons_append, List.nil_append, List.mem_cons, List.not_mem_nil, or_false, hsEv, oneEv,
+        reduceCtorEq, false_or, QEv.foreign.injEq] at he
+      rcases he with rfl | rfl | rfl
+      · exact arp_notTls tag
+      · exact dns_notTls 3 tag
+      · exact dns_notTls 6 tag)
+    (by decide +kernel)
+    (by rw [ones0]; decide +kernel)
+    (by
+      rw [ones0]
+      intro d hd
+      simp only [List.mem_cons, List.not_mem_nil, or_false] at hd
+      rcases hd with rfl | rfl
+      · exact hus.1
+      · exact hus.2)
+  rw [block0] at h
+  exact h
+
+/-- … and what an independent receiver finds in that file (`block_frames_parse`) -/
+example (f : Bytes) (h : ReadsBack f (blockOf (maskFn := maskFn) (H := H) (Pc := Pc) args0 [] ports0 fl evsH evsO p0)) :=
+  block_frames_parse args0 [] ports0 fl evsH evsO p0 f h
+
+end TLX.Props.C02File.Ex
